@@ -15,7 +15,114 @@ def extra(ctx):
     return s1 + s2 + s3 + s4, m1 + m2 + m3 + m4
 
 
+def exchange_faults(ctx):
+    """C11 at the granularity of transport operations: the fault plans of ExchangeFaults.tla replayed on an unmodified client
+    (version negotiation included), every run validated by TLC against TraceExchangeFaults.tla."""
+    import json, os, re
+    import vlib
+    ctx.tlc("ExchangeFaults", "ExchangeFaults_mc.cfg", workers=4)
+    g = ctx.tlc("ExchangeFaults", "ExchangeFaults_gen.cfg", workers=1, count=False)
+    plans = g.printed("CASE")
+    if len(plans) < 30:
+        raise vlib.Inconclusive("only %d fault plans generated" % len(plans))
+    ppath = os.path.join(ctx.work, "fault_plans.ndjson")
+    vlib.write_ndjson(ppath, plans)
+    binary = ctx.build_driver("client")
+    tpath, opath = os.path.join(ctx.work, "fault_trace.ndjson"), os.path.join(ctx.work, "fault_results.ndjson")
+    reps = 2 if ctx.quick else 12
+    rc, out = ctx.run_driver(binary, test_run="^TestFaults$", env={"VERIF_FAULT_CASES": ppath, "VERIF_TRACE": tpath, "VERIF_OUT": opath, "VERIF_FAULT_REPS": reps}, timeout=1200)
+    if rc != 0 or not os.path.exists(opath):
+        raise vlib.Inconclusive("fault driver failed rc=%s\n%s" % (rc, out[-3000:]))
+    res = vlib.read_ndjson(opath)
+    summ = [x for x in res if x.get("summary")]
+    if not summ or summ[0]["cases"] != reps * len(plans):
+        raise vlib.Inconclusive("fault driver ran %s of %d cases" % (summ, reps * len(plans)))
+    flagged = set()
+    for x in res:
+        if x.get("summary"):
+            continue
+        p = x["plan"]
+        flagged.add(x["case"])
+        for prob in x["problems"]:
+            ctx.violation("faults:%s:%s/%s/%s" % (prob.split(":")[0], p["pt"], p["kind"], "every-connection" if p["persist"] else "once"),
+                          "fault plan %s: %s" % (json.dumps(p), prob), x)
+    log = vlib.read_ndjson(tpath)
+    # runs and a property-level reading of each (independent of the specification's machine)
+    runs, cur = [], None
+    for x in log:
+        if x["ev"] == "case":
+            cur = [x]
+            runs.append(cur)
+        else:
+            cur.append(x)
+
+    def anomalies(r):
+        c, found, e, rx, dials, results = r[0], [], 0, 0, 0, []
+        for x in r[1:]:
+            if x["ev"] == "begin":
+                e, rx, dials = x["e"], 0, 0
+            elif x["ev"] == "rx":
+                rx += 1
+                if rx > 4:
+                    found.append("transmissions:%d" % rx)
+            elif x["ev"] == "dial":
+                dials += 1
+            elif x["ev"] == "ret":
+                results.append(x["outcome"])
+                if x["outcome"] not in ("resp", "err"):
+                    found.append("outcome:" + x["outcome"])
+                elif x["outcome"] == "err":
+                    hit = c["pt"] != "none" and (e >= c["exch"] if c["persist"] else e == c["exch"] + (1 if c["pt"] == "after-reply" else 0))
+                    if not hit:
+                        found.append("error-in-an-exchange-no-failure-hit:exchange-%d" % e)
+        return found
+
+    for r in runs:
+        if r[0]["n"] in flagged:
+            continue
+        for a in anomalies(r):
+            c = r[0]
+            ctx.violation("faults:%s:%s/%s/%s" % (a.split(":")[0] + ":" + a.split(":")[1].split("-")[0] if a.startswith("error") else a, c["pt"], c["kind"], "every-connection" if c["persist"] else "once"),
+                          "fault plan %s: %s; events %s" % (json.dumps(c), a, json.dumps(r[1:40])), {"run": r})
+    remaining = list(runs)
+    accepted = 0
+    for attempt in range(8):
+        if not remaining:
+            break
+        vp = os.path.join(ctx.work, "fault_validate_%d.ndjson" % attempt)
+        vlib.write_ndjson(vp, [x for r in remaining for x in r])
+        t = ctx.tlc("TraceExchangeFaults", "ExchangeFaults_trace.cfg", workers=1, env={"TRACE_FILE": vp}, must_pass=False, count=False, label="faults%d" % attempt)
+        if t.ok:
+            accepted += len(remaining)
+            break
+        m = re.search(r"REJECTED_AT\D+(\d+)", t.out)
+        if not (m or t.violated):
+            raise vlib.Inconclusive("fault trace validation failed:\n" + t.out[-3000:])
+        pos = int(m.group(1)) if m else 1
+        n, badi = 0, len(remaining) - 1
+        for i, r in enumerate(remaining):
+            if n + len(r) >= pos:
+                badi = i
+                break
+            n += len(r)
+        r = remaining[badi]
+        accepted += badi
+        ev = r[pos - n - 1] if 0 <= pos - n - 1 < len(r) else None
+        if r[0]["n"] in flagged or anomalies(r):
+            pass      # reported above
+        elif t.violated:
+            ctx.violation("faults:invariant:" + "+".join(t.violated), "fault plan %s: TLC: %s violated on the recorded run at %s" % (json.dumps(r[0]), t.violated, json.dumps(ev)), {"run": r})
+        else:
+            raise vlib.Inconclusive("model drift: a recorded fault run is not a behaviour of ExchangeFaults.tla although no property-level anomaly was observed: plan %s at event %s of %s" % (
+                json.dumps(r[0]), json.dumps(ev), json.dumps(r[:60])))
+        remaining = remaining[badi + 1:]
+    ctx.traces_validated += accepted
+    ctx.extra_cov = {"fault_plans": len(plans), "fault_runs": len(runs), "fault_events_validated": len(log),
+                     "fault_rule": "every fault plan of ExchangeFaults.tla (exchange 1 = the version negotiation inside Dial, or the first call; write failing at the client's socket with broken pipe / closed / reset / short write; server closing or resetting before replying, after half of the response, right after the complete response; once or on every connection) x %d repetitions (the client reads whole messages or three bytes at a time), on an unmodified client in one synctest bubble: no hang, no panic, own response or error, at most 4 transmissions and 4 dials per call, errors only in exchanges a failure hit, recovery in the next exchange, calls fail after Close, no goroutine left; every run validated by TLC against TraceExchangeFaults.tla" % reps}
+
+
 def run(ctx):
+    exchange_faults(ctx)
     if not ctx.quick:
         ctx.tlc("ClientConn", "Client_c11x.cfg", workers=14, timeout=2400)
     c10.run(ctx, pid="C11", traps=TRAPS, want=WANT, cfgs=("Client_c11q.cfg", "Client_c11y.cfg"), with_close=1, extra=extra)
